@@ -10,7 +10,7 @@ env = mod.Env(); env.setup()
 from dst.worker import run_forked
 env.run = lambda case, t=False: run_forked(mod, env, case, 300, t)
 rs = core.derive_seed(core.verif_seed(), check, tier, idx)
-case = mod.gen_case(rs, tier)
+case = mod.gen_case(rs, tier, index=idx) if getattr(mod, "GEN_TAKES_INDEX", False) else mod.gen_case(rs, tier)
 if hasattr(mod, "prepare"): mod.prepare(env, [case])
 res = env.run(case, True)
 print(json.dumps({"case": case, "result": res}, indent=1, default=core._default))
